@@ -1060,4 +1060,23 @@ theorem ecma_factor_valid (F : Fns Rat) (hsqrt : ∀ x : Rat, 0 < x → 0 < F.sq
 example : ValidFactor 1 [[1]] := ⟨rfl, by simp, by intro k hk; simp at hk; subst hk; simp [Vec.get]⟩
 example : cholUpdate idFns 1 1 [1] [[1]] = some [[2]] := by decide +kernel
 
+/-! ## non-vacuity of the hypotheses used above -/
+/-- libm stand-ins satisfying every hypothesis at once: `log`, `sqrt` the identity, `exp`, `pow` the constant 1 -/
+def unitFns : Fns Rat := { log := id, sqrt := id, exp := fun _ => 1, pow := fun _ _ => 1 }
+example : 1 < (cmsa_consts unitFns 3 2).cC := (cmsa_consts_admissible unitFns (fun _ h => h) 3 2 (by norm_num) (by norm_num)).2.1
+example : (ecma_consts unitFns 2).cCov < 1 := (ecma_consts_admissible unitFns (fun _ _ => by simp [unitFns]) 2 (by norm_num)).2.2.2.2.1.2
+example : 0 < vdcma_correction unitFns 6 := (vdcma_correction_ok unitFns 6 (le_refl _)).1
+example : 0 < (vdcma_c1 unitFns 7 (vdcma_correction unitFns 7) 2) :=
+  (vdcma_rates_of_correction unitFns 7 (by norm_num) _ 2 (vdcma_correction_ok unitFns 7 (by norm_num)).1
+    (vdcma_correction_ok unitFns 7 (by norm_num)).2 (by norm_num)).1.1
+example : (((3 : Nat) : Rat) - 5) / 6 * 2 / ((((3 : Nat) : Rat) + 13/10) * (((3 : Nat) : Rat) + 13/10) + 2) ≤ 0 :=
+  vdcma_head_formula_not_positive 3 (by norm_num) 2 (by norm_num)
+example : 0 < (1 + ES.activeRate (1/5 : Rat) 9) - ES.activeRate (1/5 : Rat) 9 * 9 :=
+  (active_update_admissible (1/5) 9 (by norm_num) (by norm_num)).2
+/-- a one-dimensional elitist step that completes: the hypotheses of `ecma_sigma_pos` / `ecma_factor_valid` are satisfiable -/
+def k1 : EcmaConsts Rat := { pTarget := 2/11, dStep := 3/2, cP := 1/12, cPath := 2/3, cCov := 2/7, cUnlearn := 1/5, threshold := 11/25, active := true }
+def s1 : Ecma Rat := { sigma := 1, pSucc := 2/11, path := [0], L := [[1]], anc := [4, 4, 4, 4, 4], bestPoint := [2], bestValue := 4, x := [2] }
+example : (ecmaStep unitFns k1 s1 [-1] 1 1 1).isSome = true := by decide +kernel
+example : ValidFactor 1 s1.L := ⟨rfl, by simp [s1], by intro k hk; simp [s1] at hk; subst hk; simp [Vec.get, s1]⟩
+
 end SharkVerif.C11
